@@ -19,13 +19,15 @@ def parseEntries : Nat → List String → Option (List Entry)
   | n + 1, name :: r :: rest => do
     let nm ← Hex.decode name
     let (m, rest) ← parseGroups rest
+    -- the `name` member inside the entry ("N" / "S<hex>") is not an input of the model: resolution is by KEY
+    let rest ← (match rest with | _ :: r => some r | [] => none)
     let t ← parseEntries n rest
     pure ({ name := nm, regex := r == "1", m := m } :: t)
   | _, _ => none
 
 def parseVNames : List String → Option (List VName)
   | [] => some []
-  | name :: c :: rest => do
+  | name :: c :: _member :: rest => do
     let nm ← Hex.decode name
     let t ← parseVNames rest
     pure ({ name := nm, compiles := c == "1" } :: t)
